@@ -19,8 +19,10 @@ import shutil
 
 ID = "C02"
 DRIVER = "drv_c02"
-LEAN_TARGETS = ["PharmpyProofs.C02.Properties", "PharmpyProofs.C02.AdvanProperties", "PharmpyProofs.C02.RecordProperties", "drv_c02"]
-PROPERTIES = ["PharmpyProofs/C02/Properties.lean", "PharmpyProofs/C02/AdvanProperties.lean", "PharmpyProofs/C02/RecordProperties.lean"]
+LEAN_TARGETS = ["PharmpyProofs.C02.Properties", "PharmpyProofs.C02.AdvanProperties", "PharmpyProofs.C02.RecordProperties",
+                "PharmpyProofs.C02.DoseProperties", "drv_c02"]
+PROPERTIES = ["PharmpyProofs/C02/Properties.lean", "PharmpyProofs/C02/AdvanProperties.lean", "PharmpyProofs/C02/RecordProperties.lean",
+              "PharmpyProofs/C02/DoseProperties.lean"]
 LEAN_SOURCES = ["PharmpyModel/Core/*.lean", "PharmpyModel/C02/*.lean", "PharmpyModel/Generated/PkConv.lean",
                 "PharmpyProofs/C02/*.lean", "Drivers/C02.lean"]
 TIME_LIMIT = {"quick": 900, "thorough": 3000}
@@ -32,7 +34,8 @@ RULE = ("three case kinds from one PRNG: (lcs) integer lists old/new, new derive
         "create_basic_pk_model iv/oral, hand-written ADVAN1/3/4 TRANS1/3/4 models} followed by 1-4 public structural "
         "transformations, only the steps that succeed count. non-trivial = lists differ / graph has >= 2 compartments / "
         "at least one transformation succeeded; (branch) 2-3 sibling derivations (1-2 transformations each, mostly ones that change the "
-        "number of compartments) from ONE parent object, parents mostly with an active numeric CMT data column; distinct = distinct case JSON")
+        "number of compartments) from ONE parent object, parents mostly with an active numeric CMT data column; distinct = distinct case JSON; every run also contains the full "
+        "product {absorption shape} x {lag time + bioavailability in either order} x {17 final transformations} (204 light histories)")
 TRUSTED = [
     "Lean 4.33 kernel; axioms propext, Quot.sound, Classical.choice only (audited per theorem each run)",
     "hand-written models PharmpyModel/C02/{Lcs,Advan,PkConv}.lean tied to lcs.py/update.py/statements.py by the correspondence run",
@@ -119,7 +122,7 @@ SHAPES = {
 
 
 def budget(tier):
-    return int(os.environ.get("VERIF_BUDGET", 0)) or {"quick": 300, "thorough": 6000}[tier]
+    return int(os.environ.get("VERIF_BUDGET", 0)) or {"quick": 240, "thorough": 6000}[tier]
 
 
 # ---------------------------------------------------------------- generation
@@ -193,6 +196,40 @@ def gen_history(rng):
     start = rng.choice(STARTS)
     ops = [rng.choice(TRANSFORMS) for _ in range(rng.randint(1, 4))]
     return {"kind": "history", "start": start, "ops": ops, "seed": rng.randrange(1 << 30)}
+
+
+ABS_SHAPES = [[], [["set_first_order_absorption", {}]], [["set_seq_zo_fo_absorption", {}]], [["set_zero_order_absorption", {}]],
+              [["set_first_order_absorption", {}], ["set_transit_compartments", {"n": 1}]],
+              [["set_first_order_absorption", {}], ["set_transit_compartments", {"n": 2}]]]
+DOSE_ATTRS = [[], [["add_lag_time", {}]], [["add_bioavailability", {}]], [["add_lag_time", {}], ["add_bioavailability", {}]],
+              [["add_bioavailability", {}], ["add_lag_time", {}]]]
+FINALS = [["set_zero_order_absorption", {}], ["set_first_order_absorption", {}], ["set_instantaneous_absorption", {}],
+          ["set_seq_zo_fo_absorption", {}], ["set_transit_compartments", {"n": 0}], ["set_transit_compartments", {"n": 1}],
+          ["set_transit_compartments", {"n": 2}], ["add_peripheral_compartment", {}], ["remove_peripheral_compartment", {}],
+          ["set_michaelis_menten_elimination", {}], ["set_mixed_mm_fo_elimination", {}], ["set_zero_order_elimination", {}],
+          ["set_first_order_elimination", {}], ["remove_lag_time", {}], ["remove_bioavailability", {}], ["add_lag_time", {}],
+          ["add_bioavailability", {}]]
+
+
+def gen_dose_history(rng):
+    """absorption shape x dosing attributes (lag time, bioavailability, in either order) x 1-2 further transformations."""
+    start = rng.choice(["pheno", "a2t2", "a1t1", "a4t4", "a3t4", "moxo", "cmt_a2t2", "cmt_a1t2", "basic_oral", "basic_iv"])
+    ops = list(rng.choice(ABS_SHAPES)) + list(rng.choice(DOSE_ATTRS)) + [rng.choice(FINALS) for _ in range(rng.randint(1, 2))]
+    return {"kind": "history", "start": start, "ops": ops, "seed": rng.randrange(1 << 30)}
+
+
+def dose_product_cases():
+    """Deterministic part of every run: every absorption shape with a depot, carrying BOTH a lag time and a
+    bioavailability (either order), followed by every final transformation; checked after the last step only."""
+    out = []
+    n = 0
+    for shape in ABS_SHAPES:
+        for attrs in DOSE_ATTRS[3:]:
+            for fin in FINALS:
+                n += 1
+                out.append({"kind": "history", "start": "pheno" if n % 2 else "a1t1", "ops": list(shape) + list(attrs) + [fin],
+                            "light": True, "seed": 100000 + n})
+    return out
 
 
 def gen_cov_history(rng):
@@ -280,13 +317,15 @@ def gen_cases(rng, n, tier):
             out.append(gen_graph(rng))
         elif r < 0.72:
             out.append(gen_record(rng))
-        elif r < 0.82:
+        elif r < 0.78:
             out.append(gen_history(rng))
-        elif r < 0.92:
+        elif r < 0.86:
             out.append(gen_cov_history(rng))
+        elif r < 0.94:
+            out.append(gen_dose_history(rng))
         else:
             out.append(gen_branch(rng))
-    return out
+    return out + dose_product_cases()
 
 
 def corpus_cases():
@@ -846,6 +885,8 @@ def meaning(model):
             after[str(s.symbol)] = v
     if cs is None:
         after = {str(kk): v for kk, v in env.items()}
+    import re as _re
+    out["reserved"] = {str(kk): v for kk, v in env.items() if _re.fullmatch(r"(F|ALAG|D|R)\d+", str(kk))}
     out["after"] = after
     out["dvs"] = sorted(str(d) for d in model.dependent_variables)
     rvpars = set(model.random_variables.parameter_names)
@@ -910,6 +951,8 @@ def _eq(a, b, rng):
     syms = sorted(a.free_symbols | b.free_symbols, key=str)
     funcs = sorted(a.atoms(AppliedUndef) | b.atoms(AppliedUndef), key=str)
     cand = _candidates(a, b)
+    # a Float literal (e.g. a covariate median) carries 15 digits: exact comparison only without them
+    tol = 1e-9 if (a.has(sympy.Float) or b.has(sympy.Float)) else 1e-18
     need = 2 + min(10, 2 * sum(len(v) for v in cand.values()))
     good = 0
     for _ in range(need * 3):
@@ -924,7 +967,7 @@ def _eq(a, b, rng):
             else:
                 d = complex(sympy.N(va - vb, 30))
                 scale = max(1.0, abs(complex(sympy.N(va, 30))))
-                if abs(d) <= 1e-18 * scale:
+                if abs(d) <= tol * scale:
                     good += 1
                 else:
                     return False
@@ -990,6 +1033,23 @@ def compare_meaning(A, B, rng, route, with_dataset):
                 if not _eq(va, vb, rng):
                     fail("ode-rhs", f"dA({i + 1})/dt: in memory {va}, in code {vb}")
                     break
+            # PREDPP reading of the text, independent of pharmpy's reader: Fn / ALAGn assigned in $PK are the bioavailability /
+            # lag of compartment n (1 / 0 when not assigned); they must be the attributes of the object's dosing compartments
+            for i in range(n):
+                da = oa["dosing"][i]
+                if not da["doses"] or route == "twin":
+                    continue
+                tf = B["reserved"].get(f"F{i + 1}", sympy.Integer(1)).xreplace(ren)
+                tl = B["reserved"].get(f"ALAG{i + 1}", sympy.Integer(0)).xreplace(ren)
+                if not _eq(da["bio"], tf, rng):
+                    fail("reserved-bioavailability", f"$PK gives compartment {i + 1} the bioavailability F{i + 1} = {tf}, "
+                         f"the object's compartment has {da['bio']}")
+                if not _eq(da["lag"], tl, rng):
+                    fail("reserved-lag-time", f"$PK gives compartment {i + 1} the lag ALAG{i + 1} = {tl}, the object's compartment has {da['lag']}")
+                for d in da["doses"]:
+                    if d[0] == "Infusion" and d[4] is not None and f"D{i + 1}" in B["reserved"]:
+                        if not _eq(d[4], B["reserved"][f"D{i + 1}"].xreplace(ren), rng):
+                            fail("reserved-duration", f"$PK D{i + 1} = {B['reserved'][f'D{i + 1}']}, the object's infusion lasts {d[4]}")
             for i in range(n):
                 da, db = oa["dosing"][i], ob["dosing"][i]
                 if not da["doses"] and not db["doses"]:
@@ -1062,7 +1122,26 @@ def doses_left_on_central(model, df):
     return len(dosing) == 1 and dosing[0] != central and got == {central}
 
 
-def witness_class(model, generic, what="", df=None):
+def stale_reserved(model, kind_):
+    """In the object: `Fn` / `ALAGn` is assigned before the ODEs although dosing compartment n does not refer to it."""
+    cs = model.statements.ode_system
+    if cs is None:
+        return False
+    assigned = {str(st.symbol) for st in model.statements.before_odes if isinstance(st, Assignment)}
+    try:
+        comps = cs.dosing_compartments
+    except ValueError:
+        return False
+    names = cs.compartment_names
+    for c in comps:
+        nm = f"{kind_}{names.index(c.name) + 1}"
+        attr = c.bioavailability if kind_ == "F" else c.lag_time
+        if nm in assigned and nm not in {str(x) for x in attr.free_symbols}:
+            return True
+    return False
+
+
+def witness_class(model, generic, what="", df=None, origin=None):
     """Decidable witness classes of the known defects; anything else keeps its generic class."""
     cstream = model.internals.control_stream
     cs = model.statements.ode_system
@@ -1093,11 +1172,11 @@ def witness_class(model, generic, what="", df=None):
                 return "general-linear-rate-name-kept"
             if any(r not in assigned for r in PREDPP_RATES[c_advan]):
                 return "trans1-rate-constant-unassigned"
-    if generic.endswith("lag-time") and cs is not None:
-        names = cs.compartment_names
-        for i, nm in enumerate(names):
-            if f"ALAG{i + 1}" in assigned and f"ALAG{i + 1}" not in {str(x) for x in cs.find_compartment(nm).lag_time.free_symbols}:
-                return "stale-alag-assignment"
+    if origin is not None:
+        if generic.endswith("lag-time") and origin.get("ALAG"):
+            return f"stale-reserved-ALAG-left-by-{origin['ALAG']}"
+        if generic.endswith("bioavailability") and origin.get("F"):
+            return f"stale-reserved-F-left-by-{origin['F']}"
     if generic.endswith(("value-dv", "value-F", "value-IPRED", "value-W")) and cs is not None and cstream.get_records("DES"):
         try:
             cen = cs.compartment_names.index(cs.central_compartment.name) + 1
@@ -1121,6 +1200,67 @@ def generic_twin(name):
     return _TWIN_CACHE[name]
 
 
+def _attr(e, neutral):
+    e = _sy(e)
+    if e == neutral:
+        return ["neutral"]
+    if e.is_Symbol:
+        return ["sym", str(e)]
+    return ["other", str(e)]
+
+
+def _pk_wire(before):
+    return [[str(st.symbol), str(st.expression)] for st in before if isinstance(st, Assignment)]
+
+
+def dose_updater_k(drv, model, k, tags, label, rng):
+    """update_bio / update_lag_time on the reached model with the dosing compartment's attribute replaced by
+    (1 | Fn | another reserved F | another symbol | an expression): real result vs the Lean updaters."""
+    st = model.statements
+    cs = st.ode_system
+    try:
+        comp = cs.dosing_compartments[0]
+    except ValueError:
+        return
+    n = cs.compartment_names.index(comp.name) + 1
+    variants = [Expr.integer(1), Expr.symbol(f"F{n}"), Expr.symbol(f"F{n + 1}"), Expr.symbol("F_BIO"), Expr.symbol("BIOX") * 2]
+    bio = variants[rng.randrange(len(variants))]
+    cb = CompartmentalSystemBuilder(cs)
+    cb.set_bioavailability(comp, bio)
+    new_cs = CompartmentalSystem(cb)
+    m1 = model.replace(statements=st.before_odes + new_cs + st.after_odes)
+    try:
+        r = U.update_bio(m1, cs, new_cs)
+    except Exception as e:
+        tags.append(f"update_bio-raises-{type(e).__name__}")
+        r = None
+    if r is not None:
+        rcs = r.statements.ode_system
+        rcomp = rcs.find_compartment(comp.name)
+        ans = drv.ask(["updatebio", n, _attr(bio, 1), _pk_wire(st.before_odes)])
+        real = [_attr(rcomp.bioavailability, 1), _pk_wire(r.statements.before_odes)]
+        if [ans[0], ans[1]] != real:
+            k.append(f"{label}: update_bio(bio={bio}): model {ans[:2]} code {real}")
+        tags.append("k:update_bio")
+    lagv = [Expr.integer(0), Expr.symbol("ALAG1"), Expr.symbol("MDT"), Expr.symbol("MDT") * 2]
+    lag = lagv[rng.randrange(len(lagv))]
+    cb = CompartmentalSystemBuilder(cs)
+    cb.set_lag_time(comp, lag)
+    new_cs = CompartmentalSystem(cb)
+    m1 = model.replace(statements=st.before_odes + new_cs + st.after_odes)
+    try:
+        r = U.update_lag_time(m1, cs, new_cs)
+    except Exception as e:
+        tags.append(f"update_lag_time-raises-{type(e).__name__}")
+        return
+    rcomp = r.statements.ode_system.dosing_compartments[0]
+    ans = drv.ask(["updatelag", _attr(comp.lag_time, 0), _attr(lag, 0), _pk_wire(st.before_odes)])
+    real = [_attr(rcomp.lag_time, 0), _pk_wire(r.statements.before_odes)]
+    if [ans[0], ans[1]] != real:
+        k.append(f"{label}: update_lag_time(old={comp.lag_time}, new={lag}): model {ans[:2]} code {real}")
+    tags.append("k:update_lag_time")
+
+
 def reread_class(model, route):
     """Witness class of a generated control stream that pharmpy cannot read back."""
     solver = model.execution_steps[0].solver if len(model.execution_steps) > 0 else None
@@ -1136,6 +1276,8 @@ def run_history(case, drv):
     k, mon, tags = [], [], ["kind=history", f"start={case['start']}"]
     model = start_model(case["start"])
     twin = generic_twin(case["start"])
+    stale_origin = {"F": None, "ALAG": None}
+    model_origin = dict(stale_origin)
     done = 0
     root = scratch_root() / f"c02-{case['seed']}"
     try:
@@ -1150,6 +1292,14 @@ def run_history(case, drv):
             model = new
             done += 1
             tags.append(f"op:{name}")
+            for kind_ in ("F", "ALAG"):
+                if stale_reserved(model, kind_):
+                    stale_origin[kind_] = stale_origin[kind_] or name
+                else:
+                    stale_origin[kind_] = None
+            model_origin = dict(stale_origin)
+            if case.get("light") and [name, kw] != case["ops"][-1]:
+                continue
             if twin is not None:
                 try:
                     twin = getattr(pm, name)(twin, **kw)
@@ -1196,6 +1346,8 @@ def run_history(case, drv):
                     mr = code_model_record(model)
                     if mr is not None and mr != cs.compartment_names:
                         mon.append({"cls": "model-record-order", "what": f"{label}: $MODEL lists {mr}, compartment numbering is {cs.compartment_names}"})
+            if cs is not None and drv is not None and not case.get("light"):
+                dose_updater_k(drv, model, k, tags, label, rng)
             # ---- Mon: node index of the code records the next update_source will work from
             for getter in ("get_pred_pk_record", "get_error_record"):
                 try:
@@ -1234,15 +1386,15 @@ def run_history(case, drv):
                     tags.append("twin-compared")
                     for f in compare_meaning(G, B, rng, "twin", False):
                         f["what"] = f"{label}: " + f["what"]
-                        f["cls"] = witness_class(model, f["cls"])
+                        f["cls"] = witness_class(model, f["cls"], origin=model_origin)
                         mon.append(f)
             if B is not None:
                 for f in compare_meaning(A, B, rng, "string", False):
                     f["what"] = f"{label}: " + f["what"]
-                    f["cls"] = witness_class(model, f["cls"])
+                    f["cls"] = witness_class(model, f["cls"], origin=model_origin)
                     mon.append(f)
             # ---- Mon: write to disk and read back (with the dataset)
-            if model.dataset is not None:
+            if model.dataset is not None and not case.get("light"):
                 root.mkdir(parents=True, exist_ok=True)
                 path = root / f"m{done}.mod"
                 try:
@@ -1257,7 +1409,7 @@ def run_history(case, drv):
                     check_routing(model, m3.dataset, label, mon, tags)
                     for f in compare_meaning(A, C, rng, "disk", True):
                         f["what"] = f"{label}: " + f["what"]
-                        f["cls"] = witness_class(model, f["cls"], f["what"], m3.dataset)
+                        f["cls"] = witness_class(model, f["cls"], f["what"], m3.dataset, origin=model_origin)
                         mon.append(f)
     finally:
         shutil.rmtree(root, ignore_errors=True)
@@ -1439,7 +1591,8 @@ def stmts_equivalent(a_stmts, b_stmts, rng):
                 return f"{t} is assigned on one side only"
             if va != vb:
                 try:
-                    if abs(complex(sympy.N(va - vb, 30))) > 1e-18 * max(1.0, abs(complex(sympy.N(va, 30)))):
+                    tol = 1e-9 if (va.has(sympy.Float) or vb.has(sympy.Float)) else 1e-18
+                    if abs(complex(sympy.N(va - vb, 30))) > tol * max(1.0, abs(complex(sympy.N(va, 30)))):
                         return f"{t} = {va} vs {vb} at {dict((str(k), v) for k, v in sub.items() if k in cand or str(k) in ('WGT',))}"
                 except Exception:
                     pass
